@@ -106,7 +106,10 @@ func RunShard(prop *Prop, tier string, seed uint64, shard, of int, skip map[int]
 		fmt.Fprintf(os.Stderr, "@run %d\n", run)
 		r := NewPRNG(Mix(seed, uint64(run)))
 		plan := prop.Generate(r, run, tier)
-		plan.Format, plan.Property, plan.Seed, plan.Run, plan.Tier, plan.World = 1, prop.ID, seed, run, tier, prop.World
+		plan.Format, plan.Property, plan.Seed, plan.Run, plan.Tier = 1, prop.ID, seed, run, tier
+		if plan.World == "" {
+			plan.World = prop.World
+		}
 		st := NewStats()
 		t0 := time.Now()
 		v, herr := SafeExecute(prop, plan, st)
@@ -281,7 +284,10 @@ func RunCheck(prop *Prop, tier string, seed uint64, workers int, verifDir string
 					return
 				}
 				plan := prop.Generate(NewPRNG(Mix(seed, uint64(last))), last, tier)
-				plan.Format, plan.Property, plan.Seed, plan.Run, plan.Tier, plan.World = 1, prop.ID, seed, last, tier, prop.World
+				plan.Format, plan.Property, plan.Seed, plan.Run, plan.Tier = 1, prop.ID, seed, last, tier
+				if plan.World == "" {
+					plan.World = prop.World
+				}
 				plan.Violation = &Violation{Property: prop.ID, Oracle: prop.ID + ".fatal", AtEvent: -1,
 					Message:  "the process executing this plan died with an unrecoverable runtime error inside the library: " + fatalLine(stderr2),
 					Expected: "no crash", Observed: "fatal error", Sig: prop.ID + "/fatal/" + fatalKind(stderr2)}
